@@ -29,7 +29,7 @@ def oracle(r):
         why.append("%d executions in flight at once, the configured bound is %d" % (r["max_inflight"], b))
     if r["test"] == "barrier_n":
         if not r["barrier_reached"]:
-            why.append("%d jobs due at once never ran in parallel within the deadline (pool of %d)" % (r["barrier"], r["limit"]))
+            why.append("%d jobs due at once never ran in parallel within the deadline (%s, limit %d)" % (r["barrier"], r["mode"], r["limit"]))
     if r["test"] == "barrier_n1":
         if b and r["barrier_reached"]:
             why.append("%d jobs were inside Execute at once with bound %d" % (r["barrier"], b))
@@ -98,9 +98,9 @@ def run(ctx):
         why = oracle(r)
         if why:
             # a timing-dependent miss (barrier not reached under load) must show again
-            again = [x for x in run_modes(binp, r["seed"] + 1, ctx.tier) if (x["mode"], x["limit"], x["test"], x["jobs"]) == (r["mode"], r["limit"], r["test"], r["jobs"])]
+            again = [x for x in run_modes(binp, r["seed"] + 1, ctx.tier) if (x["mode"], x["limit"], x["test"], x["jobs"], x.get("restart")) == (r["mode"], r["limit"], r["test"], r["jobs"], r.get("restart"))]
             if any(oracle(x) for x in again) or any("in flight" in w or "inside Execute" in w for w in why):
-                failures.append({"case": {k: r[k] for k in ("mode", "limit", "test", "jobs", "barrier", "bound", "seed")}, "why": why,
+                failures.append({"case": {k: r.get(k) for k in ("mode", "limit", "test", "jobs", "barrier", "bound", "seed", "restart")}, "why": why,
                                  "how": "looph modes: instrumented jobs with an in-flight counter and a barrier"})
     if lc.model_available():
         bad, out = model_mismatches(rows)
